@@ -208,6 +208,13 @@ pub fn judge_linear(prop: &str, isa: Isa, acc: &mut Acc, c: &LinCase, cfg: &EmuC
 pub fn run(ctx: &Ctx, acc: &mut Acc) {
     let prop = ctx.prop.as_str();
     let isas = isas_for(prop);
+    // directed, exhaustive part first: one statement in every placement class
+    match prop {
+        "C06" => super::matrix::run(&Ctx { prop: ctx.prop.clone(), tier: ctx.tier, seed: ctx.seed, shard: ctx.shard, nshards: ctx.nshards, budget: ctx.budget / 2, start: ctx.start }, acc, 0),
+        "C07" => super::matrix::run(&Ctx { prop: ctx.prop.clone(), tier: ctx.tier, seed: ctx.seed, shard: ctx.shard, nshards: ctx.nshards, budget: ctx.budget / 2, start: ctx.start }, acc, 1),
+        "C08" => super::matrix::run(&Ctx { prop: ctx.prop.clone(), tier: ctx.tier, seed: ctx.seed, shard: ctx.shard, nshards: ctx.nshards, budget: ctx.budget / 2, start: ctx.start }, acc, 2),
+        _ => {}
+    }
     let cfg = EmuConfig::default();
     let max_cases: u64 = if ctx.quick() { 3_000 } else { 10_000_000 };
     let mut i = 0u64;
@@ -256,6 +263,10 @@ pub fn run(ctx: &Ctx, acc: &mut Acc) {
 }
 
 pub fn replay(prop: &str, payload: &J, acc: &mut Acc) {
+    if payload.get("kind").and_then(|k| k.as_str()) == Some("placement") {
+        super::matrix::replay(payload, acc);
+        return;
+    }
     let Some(src) = payload.get("src").and_then(|s| s.as_str()) else {
         acc.infra("replay without source text is not supported for this case kind");
         return;
